@@ -18,6 +18,7 @@ Basis == { RqA("gas", 1, "INT", <<>>), RqA("sas", 1, "INT", << <<21, 0>>, <<22, 
            RqA("sas", 1, "INT", << <<21, 0>>, <<22, 0>> >>),                              \* too short for the attribute: refused
            \* explicit byte offsets: single fragments (the first two values of A[0-2]; its third; a read from its second element)
            RqF("writef", 1, 0, 3, 0, "INT", << <<7, 0>>, <<8, 0>> >>), RqF("writef", 1, 0, 3, 4, "INT", << <<9, 0>> >>),
+           RqF("writef", 3, 0, 2, 4, "DINT", << <<9, 0, 0, 0>> >>),                       \* the second element of C_3[0-1] by its byte offset, cast to a 4-octet type
            RqF("readf", 1, 0, 3, 2, "INT", <<>>), Rq("read", 1, "sym", 0, 3, "INT", <<>>), Rq("read", 1, "sym", 1, 1, "INT", <<>>), Rq("read", 2, "sym", 0 - 1, 1, "INT", <<>>),
            Rq("write", 1, "sym", 1, 2, "INT", << <<5, 0>>, <<6, 0>> >>), Rq("write", 1, "cia", 0, 1, "INT", << <<44, 1>> >>),
            Rq("write", 3, "sym", 0, 2, "DINT", << <<8, 0, 0, 0>>, <<9, 0, 0, 0>> >>),
@@ -33,6 +34,13 @@ ASSUME \A r \in Basis : PrintT(ToJson([k |-> "op", r |-> r, text |-> OpText(QCfg
 \* writes spelled without a cast: the values are of the entry point's default integer type
 PlainOps == { RqA("sas", 1, "SINT", << <<1>>, <<2>>, <<3>> >>), RqA("sas", 3, "SINT", << <<100>> >>),
               Rq("write", 1, "sym", 0, 2, "INT", << <<5, 0>>, <<6, 0>> >>), Rq("write", 2, "sym", 0 - 1, 1, "INT", << <<44, 1>> >>), Rq("write", 3, "cia", 0, 1, "INT", << <<7, 0>> >>) }
+DotPaths == { << <<"Motor", 5, 5>>, <<"Speed", 0 - 1, 0>> >>, << <<"A", 0 - 1, 0>>, <<"Bb", 1, 1>>, <<"D", 3, 4>> >>, << <<"A", 3, 3>>, <<"Bb", 0 - 1, 0>> >>,
+              << <<"A", 2, 2>>, <<"Bb", 7, 7>> >>, << <<"A", 0 - 1, 0>>, <<"Bb", 0 - 1, 0>> >> }
+ASSUME \A cs \in DotPaths : PrintT(ToJson([k |-> "pathtext", text |-> DotText(cs), segs |-> DotSegs(cs), elm |-> DotElm(cs), cnt |-> DotCnt(cs)]))
+\* value lists with blanks after the cast and after the commas (quoted strings, true / false)
+PaddedOps == { << Rq("write", 6, "sym", 0, 2, "SSTRING", << <<97>>, <<98>> >>), "U[0-1]=(SSTRING) \"a\", \"b\"" >>,
+               << Rq("write", 1, "sym", 0, 2, "INT", << <<5, 0>>, <<6, 0>> >>), "A[0-1]=(INT) 5, 6" >> }
+ASSUME \A x \in PaddedOps : PrintT(ToJson([k |-> "optext", r |-> x[1], text |-> x[2]]))
 ASSUME \A r \in PlainOps : r.typ = DefaultIntType(r) /\ PrintT(ToJson([k |-> "optext", r |-> r, text |-> PlainText(QCfg, r)]))
 ASSUME \A r \in Basis : \A tx \in AltTexts(QCfg, r) : PrintT(ToJson([k |-> "optext", r |-> r, text |-> tx]))
 \* replies larger than one receive buffer: a 100-element DINT array read many times in one Multiple Service Packet
